@@ -58,6 +58,8 @@ struct Scen {
     domain: Option<(RejectAt, usize, f64)>,
     exact: bool,
     depth: usize,
+    /// sample locations shifted by this amount (x > 0 makes exp(-x/tau) distinguish tau = +0.0 from tau = -0.0)
+    xshift: f64,
 }
 
 fn scen_desc(s: &Scen) -> Value {
@@ -119,7 +121,10 @@ fn ycolumn(spec: &ModelSpec, gen_alpha: &[f64], c: &YCol) -> DVector<f64> {
 
 impl<T: Sc> Env<T> {
     fn new(sc: &Scen) -> Self {
-        let spec = spec_for(&sc.fam, sc.n);
+        let mut spec = spec_for(&sc.fam, sc.n);
+        for v in spec.x.iter_mut() {
+            *v += sc.xshift;
+        }
         let gen_alpha = &sc.alphas[1.min(sc.alphas.len() - 1)];
         let mut y = DMatrix::<f64>::zeros(sc.n, sc.ycols.len());
         for (s, c) in sc.ycols.iter().enumerate() {
@@ -772,6 +777,7 @@ fn scenarios(prop: &str, thorough: bool) -> Vec<Scen> {
         domain: None,
         exact: false,
         depth,
+        xshift: 0.0,
     };
     let lin_cols = vec![YCol::OnModel, YCol::Off, YCol::OnPlusOff, YCol::ThreeOn];
     match prop {
@@ -855,10 +861,21 @@ fn scenarios(prop: &str, thorough: bool) -> Vec<Scen> {
                     }
                 }
                 v.extend(extra);
+                // signed zeros are different parameter vectors: exp(-x/tau) on x > 0 is 0 for tau = +0.0 and +inf for tau = -0.0
+                for prov in provs {
+                    for par in [false, true] {
+                        for f32_ in [false, true] {
+                            let mut s = mk(&Family::Exp1Off, 6, prov, f32_, par, Api::Single, vec![YCol::Noisy], WKind::Ramp, EpsKind::Default);
+                            s.xshift = 0.5;
+                            s.alphas = vec![vec![1.0], vec![1.25], vec![0.0], vec![-0.0], vec![2.0]];
+                            v.push(s);
+                        }
+                    }
+                }
             }
         }
         "C06" => {
-            let weights = [WKind::Ones, WKind::Threes, WKind::Dyadic, WKind::Ramp, WKind::InvSigma, WKind::Spread, WKind::ZeroAt(0), WKind::ZeroAt(3), WKind::NegAt(1), WKind::NegAt(4), WKind::Tiny];
+            let weights = [WKind::Ones, WKind::Threes, WKind::Dyadic, WKind::Ramp, WKind::InvSigma, WKind::Spread, WKind::ZeroAt(0), WKind::ZeroAt(3), WKind::NegAt(1), WKind::NegAt(4), WKind::Tiny, WKind::Huge];
             for (fi, (fam, n)) in base_families().iter().enumerate() {
                 for prov in provs {
                     for f32_ in [false, true] {
@@ -869,6 +886,12 @@ fn scenarios(prop: &str, thorough: bool) -> Vec<Scen> {
                                         continue;
                                     }
                                     v.push(mk(fam, *n, prov, f32_, par, api, ycols.clone(), w, EpsKind::Default));
+                                    // the rank decision must be the same for the weighted and the row-scaled problem: user thresholds with large / tiny weights
+                                    if matches!(w, WKind::Spread | WKind::Tiny | WKind::Threes) && (thorough || fi <= 1) {
+                                        for e in [1e-2, 1e-8] {
+                                            v.push(mk(fam, *n, prov, f32_, par, api, ycols.clone(), w, EpsKind::Val(e)));
+                                        }
+                                    }
                                 }
                             }
                         }
